@@ -38,6 +38,11 @@ theorem step_fail_unchanged {s s' : State} {op : Op} {r : Res} (hw : WF s)
       · cases e; rfl
     · cases e; rfl
   | curFromBuf c b => simp only [step] at e; cases e; cases hf
+  | curSub dst src off len =>
+    simp only [step] at e
+    split at e
+    · cases e; cases hf
+    · cases e; rfl
   | bufFromArray b bs =>
     simp only [step] at e
     split at e
